@@ -7,6 +7,6 @@ CONSTANT W
 VARIABLE ws
 WSizes == {0, 1, 2, 15, 16, 17, 255, 4096}
 Init == ws \in UNION {[1..k -> WSizes] : k \in 0..W}
-Next == UNCHANGED ws
+Next == FALSE /\ UNCHANGED ws
 Emit == PrintT(ToJson([writes |-> ws]))
 =====================================================================
